@@ -190,6 +190,10 @@ class TGen:
                         return ('call', ('dot', a, b"slice"), [('num', 0), ('num', r.choice([0, 1, 2]))])
                     return ('call', ('dot', a, m), [])
             if k < 0.8 and self.methods:
+                if r.random() < 0.3:
+                    # empty strings at the start, in the middle and at the end keep their separators
+                    items = [('str', r.choice([b"", b"", b"a", b"b"])) for _ in range(r.choice([2, 3, 4]))]
+                    return ('call', ('dot', ('arr', items), b"join"), [('str', r.choice([b",", b"-", b"+", b", "]))])
                 a = self.recv(env, lambda x: is_arr(x, 'str') or is_arr(x, 'num'), d)
                 if a:
                     return ('call', ('dot', a, b"join"), [('str', r.choice([b",", b"-", b"", b", "]))])
@@ -203,8 +207,11 @@ class TGen:
                 return ('bin', r.choice(['<', '>', '<=', '>=', '==', '!=', '===', '!==']), E(tt), E(tt))
             if k < 0.55:
                 return ('bin', r.choice(['==', '!=', '===', '!==']), E('bool'), E('bool'))
-            if k < 0.7:
+            if k < 0.62:
                 return ('un', '!', E(r.choice(['bool', 'num', 'str'])))
+            if k < 0.7:
+                # !!x is the boolean ToBoolean(x), wherever it stands (operand of && || == ?: , array element)
+                return ('un', '!', ('un', '!', E(r.choice(['bool', 'num', 'str']))))
             if k < 0.9:
                 return ('bin', r.choice(['&&', '||']), E('bool'), E('bool'))
             return ('cond', E('bool'), E('bool'), E('bool'))
